@@ -16,7 +16,7 @@ K = "crysp.utils.knapsack."
 
 
 def rlist(rng, allow_rep=True):
-    n = rng.choice([0, 1, 2, 3, 3, 4, 4, 5, 6])
+    n = rng.choice([0, 1, 2, 3, 3, 4, 4, 5, 6, 7])
     if allow_rep and rng.random() < 0.35:
         return [rng.randint(0, 2) for _ in range(n)]
     l = list(range(n))
@@ -25,7 +25,7 @@ def rlist(rng, allow_rep=True):
 
 
 def ritems(rng):
-    n = rng.choice([0, 1, 2, 3, 4, 5, 6])
+    n = rng.choice([0, 1, 2, 3, 4, 5, 6, 8, 9])
     return [{"t": [{"s": "i%d" % i}, rng.randint(1, 9)]} for i in range(n)]
 
 
